@@ -7,6 +7,7 @@ def explore(run, lean):
     hsm_corr.explore(run, "C01", 1500 if quick else 20000, hosts=("plain", "instr", "queued"),
                      malformed_rate=0.0, exhaustive_n=(0 if quick else 5))
     hsm_corr.explore_orthogonal(run, "C01", 200 if quick else 4000)
+    hsm_corr.explore_literal_depths(run, "C01")
     run.extra["rule"] = ("(b) a second chart object dispatched to from the first one's entry/exit/init actions: the first behaves as alone; "
                          "(a) corpus witnesses first, then random charts (1-14 states, 40% deep chains, multi-level initial "
                          "transitions, per-state HANDLED/fall-through flags) with scripts of start_at + 1-6 ops on plain / "
